@@ -69,7 +69,7 @@ def load_flags(ctx):
 
 def budget(tier):
     if tier == 'quick':
-        return dict(workers=14, examples=500, wall=150)
+        return dict(workers=14, examples=400, wall=100)
     return dict(workers=14, examples=12000, wall=1500)
 
 
@@ -445,3 +445,24 @@ def signature(case, detail):
     if w == 'transformer-unusable-after':
         return '%s|%s' % (w, re.split(r'[:.(]', detail.get('f.err', '') or detail.get('f.out', ''))[0][:50])
     return w
+
+
+def evidence_extra(results):
+    """the byte-level engine's summary (written by bin/check-c03-fuzz just before this check) becomes part of the evidence"""
+    path = os.path.join(os.environ.get('VERIF_EVIDENCE_DIR', os.path.join(os.path.dirname(os.path.dirname(os.path.dirname(os.path.dirname(os.path.abspath(__file__))))), 'evidence')), 'C03.fuzz.json')
+    try:
+        with open(path) as f:
+            fz = json.load(f)
+    except Exception as e:
+        return {'fuzz': {'missing': str(e)}}
+    keep = {}
+    for k, v in fz.items():
+        if k in ('samples',):
+            continue
+        keep[k] = v
+    # keep the file small: at most 3 decoded samples per target
+    if isinstance(fz.get('targets'), dict):
+        for t, d in fz['targets'].items():
+            if isinstance(d, dict) and isinstance(d.get('samples'), list):
+                d['samples'] = d['samples'][:3]
+    return {'fuzz': keep}
